@@ -13,9 +13,11 @@ import YaegiVerif.Proofs.C19Track
        terminate, and every value of the facts read from the source;
    (2) the session ends with a terminate event: `terminate_event_last` — full strength;
    (3) every breakpoint on a node that executes is reported, in order
-       (`breakpoints_reported_full_statement`) — NOT true of the unchanged code
-       (`tracking_witness`, `backedge_witness`); proved as `breakpoints_reported_in_order_partial`
-       on the domain `codeSeparates g ∧ Respects g P`.
+       (`breakpoints_reported_full_statement`, `breakpoints_reported_in_order`) — full strength
+       since d1e6c4c (F20: nodes are re-derived by closure object, not by code) and 3d77a98 (F19-1:
+       the forwarding closures of back edges are recorded on their node): for every graph and
+       every program that follows its edges; `f20_regression`, `f19_1_regression` are the former
+       witnesses, `f20_old_facts`, `f19_1_old_facts` reproduce the old behaviour from the old facts.
 -/
 namespace YaegiVerif.Props.C19
 open YaegiVerif YaegiVerif.Debug YaegiVerif.Proofs.C19
@@ -34,7 +36,7 @@ theorem source_tie : Generated.C19.sourceHashes = Expected.C19.sourceHashes := b
 def expF : LoopFacts := LoopFacts.ofRaw Expected.C19.facts
 def genF : LoopFacts := LoopFacts.ofRaw Generated.C19.facts
 
-theorem expF_val : expF = ⟨false, [.tnext, .fnext], .gt, .ge⟩ := by decide
+theorem expF_val : expF = ⟨false, [.tnext, .fnext], true, true, true, .gt, .ge⟩ := by decide
 theorem genF_eq : genF = expF := by unfold genF expF; rw [facts_tie]
 
 /-! ### (1) the debugger never changes what executes -/
@@ -170,10 +172,12 @@ theorem depth_counts_activations (S : Setup) (P : Prog σ) (st : σ) (cmds : Lis
 /-! ### (3) breakpoints are reported in execution order -/
 
 /-- the full statement: the nodes of the break events are the marked nodes (with a position) among
-    the owners of the executed closures, in order -/
+    the owners of the executed closures, in order — for every graph whose data is well formed
+    (`idSeparates`: two successors of a node are not represented by one closure object) and every
+    program that runs on it (`Respects`; without it `P` and `g` are unrelated) -/
 def breakpoints_reported_full_statement : Prop :=
   ∀ (σ : Type) (g : Graph) (mk : Nat → Bool) (P : Prog σ) (st : σ) (cmds : List Cmd) (n : Nat),
-    Cmd.terminate ∉ cmds →
+    idSeparates g = true → Respects g P → Cmd.terminate ∉ cmds →
     brkNodes (drun ⟨expF, g, mk, false⟩ P n (DCfg.init st cmds)).events
       = expected ⟨expF, g, mk, false⟩ (drun ⟨expF, g, mk, false⟩ P n (DCfg.init st cmds)).trace
 
@@ -185,41 +189,54 @@ theorem init_noterm (st : σ) (cmds : List Cmd) (h : Cmd.terminate ∉ cmds) : N
     simp only [List.mem_cons, not_or] at h
     exact ⟨apply_noterm _ c (by simp [Dbg.init]) (fun e => h.1 e.symm), h.2⟩
 
-/-- **On the domain, the debugger is the reference debugger**: when the closures follow the edges
-    of the graph (`Respects`) and the two successors of every branching node have different code
-    (`codeSeparates`, decidable on the graph), the whole configuration — tracked nodes, events with
-    reasons, nodes and step counts, mode — is at every step the one of the debugger that is told
-    which node executes. -/
-theorem debug_eq_reference_partial (g : Graph) (mk : Nat → Bool) (P : Prog σ) (st : σ) (cmds : List Cmd)
-    (n : Nat) (hsep : codeSeparates g = true) (hR : Respects g P) :
+/-- **The node the debugger tracks is the node that executes**, in every live activation, at every
+    step of every session: for every graph — successors made by the same generator (F20) and back
+    edges taken through forwarding closures (F19-1) included — and every program that follows its
+    edges. -/
+theorem tracked_node_is_executing_node (g : Graph) (mk : Nat → Bool) (P : Prog σ) (st : σ) (cmds : List Cmd)
+    (n : Nat) (hid : idSeparates g = true) (hR : Respects g P) :
+    ∀ fr ∈ (drun ⟨expF, g, mk, false⟩ P n (DCfg.init st cmds)).stack, fr.m = some fr.cur.owner :=
+  drun_track ⟨expF, g, mk, false⟩ P n (DCfg.init st cmds) (by rw [expF_val]) (by rw [expF_val]) (by rw [expF_val])
+    (by rw [expF_val]) hid hR (by intro fr hfr; simp [DCfg.init] at hfr)
+
+/-- **The debugger is the reference debugger**: when the closures follow the edges of the graph
+    (`Respects`), the whole configuration — tracked nodes, events with reasons, nodes and step
+    counts, mode — is at every step the one of the debugger that is told which node executes.
+    (Before d1e6c4c and 3d77a98 this needed `codeSeparates g` and excluded forwarding closures.) -/
+theorem debug_eq_reference (g : Graph) (mk : Nat → Bool) (P : Prog σ) (st : σ) (cmds : List Cmd)
+    (n : Nat) (hid : idSeparates g = true) (hR : Respects g P) :
     drun ⟨expF, g, mk, false⟩ P n (DCfg.init st cmds) = drun ⟨expF, g, mk, true⟩ P n (DCfg.init st cmds) := by
   have := drun_ideal ⟨expF, g, mk, false⟩ P n (DCfg.init st cmds) rfl (by rw [expF_val]) (by rw [expF_val])
-    hsep hR (by intro fr hfr; simp [DCfg.init] at hfr)
+    (by rw [expF_val]) (by rw [expF_val]) hid hR (by intro fr hfr; simp [DCfg.init] at hfr)
   exact this.symm
 
 /-- **Every breakpoint on a node that executes is reported, in execution order, and nothing else is
-    reported as a breakpoint** — on the domain `codeSeparates g ∧ Respects g P`, for every request
-    sequence without terminate. -/
-theorem breakpoints_reported_in_order_partial (g : Graph) (mk : Nat → Bool) (P : Prog σ) (st : σ)
-    (cmds : List Cmd) (n : Nat) (hsep : codeSeparates g = true) (hR : Respects g P)
+    reported as a breakpoint**, for every graph, every program that follows its edges, every
+    breakpoint set and every request sequence without terminate. -/
+theorem breakpoints_reported_in_order (g : Graph) (mk : Nat → Bool) (P : Prog σ) (st : σ)
+    (cmds : List Cmd) (n : Nat) (hid : idSeparates g = true) (hR : Respects g P)
     (h : Cmd.terminate ∉ cmds) :
     brkNodes (drun ⟨expF, g, mk, false⟩ P n (DCfg.init st cmds)).events
       = expected ⟨expF, g, mk, false⟩ (drun ⟨expF, g, mk, false⟩ P n (DCfg.init st cmds)).trace := by
-  rw [debug_eq_reference_partial g mk P st cmds n hsep hR]
+  rw [debug_eq_reference g mk P st cmds n hid hR]
   have := drun_brk ⟨expF, g, mk, true⟩ P n (DCfg.init st cmds) rfl (by rw [expF_val])
     (init_noterm st cmds h) (by simp [BrkInv, DCfg.init, brkNodes, expected])
   exact this
 
+/-- the full statement holds -/
+theorem breakpoints_reported_full_statement_holds : breakpoints_reported_full_statement :=
+  fun _ g mk P st cmds n hid hR h => breakpoints_reported_in_order g mk P st cmds n hid hR h
+
 /-- the same for the parameters regenerated from the source -/
 theorem breakpoints_reported_in_order_generated (g : Graph) (mk : Nat → Bool) (P : Prog σ) (st : σ)
-    (cmds : List Cmd) (n : Nat) (hsep : codeSeparates g = true) (hR : Respects g P)
+    (cmds : List Cmd) (n : Nat) (hid : idSeparates g = true) (hR : Respects g P)
     (h : Cmd.terminate ∉ cmds) :
     brkNodes (drun ⟨genF, g, mk, false⟩ P n (DCfg.init st cmds)).events
       = expected ⟨genF, g, mk, false⟩ (drun ⟨genF, g, mk, false⟩ P n (DCfg.init st cmds)).trace := by
-  rw [genF_eq]; exact breakpoints_reported_in_order_partial g mk P st cmds n hsep hR h
+  rw [genF_eq]; exact breakpoints_reported_in_order g mk P st cmds n hid hR h
 
 /-- the reference debugger reports exactly the marked nodes that execute, for every program
-    (no side condition): what is lost outside the domain is lost by the tracking alone -/
+    (no side condition) -/
 theorem reference_reports_all (g : Graph) (mk : Nat → Bool) (P : Prog σ) (st : σ) (cmds : List Cmd)
     (n : Nat) (h : Cmd.terminate ∉ cmds) :
     brkNodes (drun ⟨expF, g, mk, true⟩ P n (DCfg.init st cmds)).events
@@ -227,17 +244,18 @@ theorem reference_reports_all (g : Graph) (mk : Nat → Bool) (P : Prog σ) (st 
   drun_brk ⟨expF, g, mk, true⟩ P n (DCfg.init st cmds) rfl (by rw [expF_val])
     (init_noterm st cmds h) (by simp [BrkInv, DCfg.init, brkNodes, expected])
 
-/-! ### witnesses: what the domain excludes is a real difference -/
+/-! ### regression examples for the repaired findings (F20: d1e6c4c, F19-1: 3d77a98) -/
 
-/-- `if c { x = 1 } else { x = 2 }` with `c` false (F20).
+/-- `if c { x = 1 } else { x = 2 }` with `c` false (the replay of F20).
     node 1: the condition (branch), node 2: `x = 1` (line 9), node 3: `x = 2` (line 11), node 4: end of
-    the block. Both assignments are closures of the same generator (code 20). -/
+    the block. Both assignments are closures of the same generator (code 20), and two objects
+    (201, 301). -/
 def ifElseGraph : Graph := #[
   { children := [1, 2, 3, 4] },
-  { code := 10, tnext := some 2, fnext := some 3, line := 8, posValid := true, isNop := false, parent := some 0 },
-  { code := 20, tnext := some 4, line := 9, posValid := true, isNop := false, parent := some 0 },
-  { code := 20, tnext := some 4, line := 11, posValid := true, isNop := false, parent := some 0 },
-  { code := 30, line := 5, posValid := true, parent := some 0 } ]
+  { code := 10, clo := 101, tnext := some 2, fnext := some 3, line := 8, posValid := true, isNop := false, parent := some 0 },
+  { code := 20, clo := 201, tnext := some 4, line := 9, posValid := true, isNop := false, parent := some 0 },
+  { code := 20, clo := 301, tnext := some 4, line := 11, posValid := true, isNop := false, parent := some 0 },
+  { code := 30, clo := 401, line := 5, posValid := true, parent := some 0 } ]
 
 /-- the program: `Execute` calls the body once; the condition is false -/
 def ifElseProg : Prog Nat :=
@@ -250,114 +268,215 @@ def ifElseProg : Prog Nat :=
 
 def bothArms (i : Nat) : Bool := i == 2 || i == 3
 
-/-- **F20**: with breakpoints on both arms and the condition false, the else arm (node 3) executes
-    and the debugger reports the then arm (node 2): the report is wrong and the executed line is
-    missed. The program respects the graph; only `codeSeparates` fails. -/
-theorem tracking_witness :
-    let S : Setup := ⟨expF, ifElseGraph, bothArms, false⟩
-    let d := drun S ifElseProg 8 (DCfg.init 0 [.cont])
-    d.ctl = .halt false ∧
-    d.trace.reverse.map (·.owner) = [1, 3, 4] ∧
-    expected S d.trace = [some 3] ∧
-    brkNodes d.events = [some 2] ∧
-    codeSeparates ifElseGraph = false := by decide
-
 theorem ifElse_respects : Respects ifElseGraph ifElseProg := by
   intro st c r
   by_cases hb : c = baseClo
   · by_cases h0 : st = 0 <;> simp [ifElseProg, hb, h0]
   · by_cases h1 : c.owner = 1
     · simp only [ifElseProg, hb, h1, ↓reduceIte]
-      exact ⟨3, rfl, by decide, by decide⟩
+      exact ⟨3, by decide, by decide, rfl, .inl rfl⟩
     · by_cases h2 : c.owner = 2
       · simp only [ifElseProg, hb, h2, ↓reduceIte]
-        exact ⟨4, rfl, by decide, by decide⟩
+        exact ⟨4, by decide, by decide, rfl, .inl rfl⟩
       · by_cases h3 : c.owner = 3
         · simp only [ifElseProg, hb, h3, ↓reduceIte]
-          exact ⟨4, rfl, by decide, by decide⟩
+          exact ⟨4, by decide, by decide, rfl, .inl rfl⟩
         · simp [ifElseProg, hb, h1, h2, h3]
 
-/-- hence the full statement does not hold -/
-theorem breakpoints_reported_full_statement_fails : ¬ breakpoints_reported_full_statement := by
-  intro h
-  have := h Nat ifElseGraph bothArms ifElseProg 0 [.cont] 8 (by decide)
-  revert this
+/-- the facts of the unchanged code -/
+def oldF : LoopFacts := LoopFacts.ofRaw Expected.C19.factsBeforeRepair
+theorem oldF_val : oldF = ⟨false, [.tnext, .fnext], false, false, false, .gt, .ge⟩ := by decide
+
+/-- **F20 repaired**: with breakpoints on both arms and the condition false, the else arm (node 3)
+    executes and is reported. The graph is outside the old domain (`codeSeparates` fails) and
+    inside the hypotheses of the theorem. -/
+theorem f20_regression :
+    let S : Setup := ⟨expF, ifElseGraph, bothArms, false⟩
+    let d := drun S ifElseProg 8 (DCfg.init 0 [.cont])
+    d.ctl = .halt false ∧
+    d.trace.reverse.map (·.owner) = [1, 3, 4] ∧
+    expected S d.trace = [some 3] ∧
+    brkNodes d.events = [some 3] ∧
+    codeSeparates ifElseGraph = false ∧ idSeparates ifElseGraph = true := by decide
+
+/-- the same input with the facts of the unchanged code reproduces F20: the then arm (node 2) is
+    reported, the else arm, which executes, is missed -/
+theorem f20_old_facts :
+    let S : Setup := ⟨oldF, ifElseGraph, bothArms, false⟩
+    let d := drun S ifElseProg 8 (DCfg.init 0 [.cont])
+    d.trace.reverse.map (·.owner) = [1, 3, 4] ∧ expected S d.trace = [some 3] ∧ brkNodes d.events = [some 2] := by
   decide
 
 /-- `for x < 2 { x++ }`: node 1 the condition, node 2 the body, node 3 the exit. The closure of the
-    body hands over to a forwarding closure of setExec (code 99) for the back edge. -/
+    body hands over to the forwarding closure of setExec for the back edge (code 99, object 199),
+    which setForwardExec records on node 1. -/
 def loopGraph : Graph := #[
   { children := [1, 2, 3] },
-  { code := 10, tnext := some 2, fnext := some 3, line := 7, posValid := true, isNop := false, parent := some 0 },
-  { code := 20, tnext := some 1, line := 8, posValid := true, isNop := false, parent := some 0 },
-  { code := 30, line := 5, posValid := true, parent := some 0 } ]
+  { code := 10, clo := 101, fwd := 199, tnext := some 2, fnext := some 3, line := 7, posValid := true, isNop := false, parent := some 0 },
+  { code := 20, clo := 201, tnext := some 1, line := 8, posValid := true, isNop := false, parent := some 0 },
+  { code := 30, clo := 301, line := 5, posValid := true, parent := some 0 } ]
 
 /-- state: (phase of Execute, x) -/
 def loopProg : Prog (Nat × Nat) :=
   ⟨fun st c _ =>
     if c = baseClo then (if st.1 = 0 then ((1, st.2), .call 1 (entryClo loopGraph 1)) else (st, .next none))
     else if c.owner = 1 then (if st.2 < 2 then (st, .next (some (nodeClo loopGraph 2))) else (st, .next (some (nodeClo loopGraph 3))))
-    else if c.owner = 2 then ((st.1, st.2 + 1), .next (some ⟨1, 99⟩))
+    else if c.owner = 2 then ((st.1, st.2 + 1), .next (some ⟨1, 99, 199⟩))
     else (st, .next none)⟩
 
-/-- **back edge**: a breakpoint on the loop condition is reported the first time only — after the
-    back edge the debugger has no node (`originalExecNode` finds no closure with the code of the
-    forwarding closure), although the graph separates codes. -/
-theorem backedge_witness :
+theorem loop_respects : Respects loopGraph loopProg := by
+  intro st c r
+  by_cases hb : c = baseClo
+  · by_cases h0 : st.1 = 0 <;> simp [loopProg, hb, h0]
+  · by_cases h1 : c.owner = 1
+    · by_cases hx : st.2 < 2
+      · simp only [loopProg, hb, h1, hx, ↓reduceIte]
+        exact ⟨2, by decide, by decide, rfl, .inl rfl⟩
+      · simp only [loopProg, hb, h1, hx, ↓reduceIte]
+        exact ⟨3, by decide, by decide, rfl, .inl rfl⟩
+    · by_cases h2 : c.owner = 2
+      · simp only [loopProg, hb, h2, ↓reduceIte]
+        exact ⟨1, by decide, by decide, rfl, .inr ⟨by decide, rfl⟩⟩
+      · simp [loopProg, hb, h1, h2]
+
+/-- **F19-1 repaired**: a breakpoint on the loop condition is reported at every iteration, the
+    back edge being taken through the forwarding closure -/
+theorem f19_1_regression :
     let S : Setup := ⟨expF, loopGraph, fun i => i == 1, false⟩
     let d := drun S loopProg 12 (DCfg.init (0, 0) [.cont])
     d.ctl = .halt false ∧
     d.trace.reverse.map (·.owner) = [1, 2, 1, 2, 1, 3] ∧
     expected S d.trace = [some 1, some 1, some 1] ∧
-    brkNodes d.events = [some 1] ∧
-    codeSeparates loopGraph = true := by decide
+    brkNodes d.events = [some 1, some 1, some 1] ∧
+    idSeparates loopGraph = true := by decide
 
-/-- stepping through the same loop: after the back edge the debugger stops with no node at all
-    (the event has no position), then finds the body again through `originalExecNode` -/
-theorem backedge_step_witness :
+/-- stepping through the same loop: every stop has the node that executes -/
+theorem f19_1_step_regression :
     let S : Setup := ⟨expF, loopGraph, fun _ => false, false⟩
     let d := drun S loopProg 12 (DCfg.init (0, 0) (List.replicate 10 (.step .into)))
-    d.events.reverse.map (·.node) = [some 1, some 2, none, some 2, none, some 3] := by decide
+    d.events.reverse.map (·.node) = [some 1, some 2, some 1, some 2, some 1, some 3] := by decide
 
-/-! ### non-vacuity of the domain -/
+/-- the same input with the facts of the unchanged code reproduces F19-1: the breakpoint is reported
+    on the first iteration only, and stepping stops without a node after each back edge -/
+theorem f19_1_old_facts :
+    brkNodes (drun ⟨oldF, loopGraph, fun i => i == 1, false⟩ loopProg 12 (DCfg.init (0, 0) [.cont])).events = [some 1] ∧
+    (drun ⟨oldF, loopGraph, fun _ => false, false⟩ loopProg 12
+        (DCfg.init (0, 0) (List.replicate 10 (.step .into)))).events.reverse.map (·.node)
+      = [some 1, some 2, none, some 2, none, some 3] := by decide
 
-/-- `if c { x = 1 } else { y = f() }`: the arms have different code -/
-def sepGraph : Graph := #[
-  { children := [1, 2, 3, 4] },
-  { code := 10, tnext := some 2, fnext := some 3, line := 8, posValid := true, isNop := false, parent := some 0 },
-  { code := 20, tnext := some 4, line := 9, posValid := true, isNop := false, parent := some 0 },
-  { code := 21, tnext := some 4, line := 11, posValid := true, isNop := false, parent := some 0 },
-  { code := 30, line := 5, posValid := true, parent := some 0 } ]
+/-! ### non-vacuity of the hypotheses -/
 
-def sepProg : Prog Nat :=
+/-- the hypotheses of `breakpoints_reported_in_order` are satisfied by the branching program whose
+    arms share their code, with breakpoints in both arms, and by the loop whose back edge goes
+    through a forwarding closure — the two shapes the unchanged code got wrong -/
+theorem hyps_nonempty :
+    (idSeparates ifElseGraph = true ∧ Respects ifElseGraph ifElseProg ∧
+      brkNodes (drun ⟨expF, ifElseGraph, bothArms, false⟩ ifElseProg 8 (DCfg.init 0 [.cont])).events = [some 3]) ∧
+    (idSeparates loopGraph = true ∧ Respects loopGraph loopProg ∧
+      brkNodes (drun ⟨expF, loopGraph, fun i => i == 1, false⟩ loopProg 12 (DCfg.init (0, 0) [.cont])).events
+        = [some 1, some 1, some 1]) :=
+  ⟨⟨by decide, ifElse_respects, by decide⟩, ⟨by decide, loop_respects, by decide⟩⟩
+
+/-! ### open findings: what a *line* request gets (F19-3 … F19-6)
+
+The theorems above are about marked *nodes*. Which node `SetBreakpoints` marks for a requested line
+(`place`: the first node in walk order that has a position, an action and a closure) is where the
+remaining divergences are: the marked node is the outermost node of the line, which executes last. -/
+
+/-- lines of the executed nodes, in execution order -/
+def linesExecuted (g : Graph) (d : DCfg σ) : List Nat := d.trace.reverse.map fun c => g.line c.owner
+
+/-- `if x == 2 { continue }`: node 1 the condition (line 9), node 2 the `continue` statement
+    (line 10): it has a position and a closure (it executes), and no action (`aNop`) -/
+def jumpGraph : Graph := #[
+  { children := [1, 2, 3] },
+  { code := 10, clo := 101, tnext := some 2, fnext := some 3, line := 9, posValid := true, isNop := false, parent := some 0 },
+  { code := 20, clo := 201, tnext := some 3, line := 10, posValid := true, isNop := true, parent := some 0 },
+  { code := 30, clo := 301, line := 7, posValid := true, parent := some 0 } ]
+
+/-- **F19-3** (open): a line that holds only a `break`, `continue`, `goto` or bare `return` gets no
+    breakpoint: the statement's node executes, but nodes without action are not candidates -/
+theorem jump_line_witness :
+    place jumpGraph 0 [.line 10] = [] ∧ lineCandidate jumpGraph 2 = false ∧
+    jumpGraph.code 2 ≠ 0 ∧ jumpGraph.posValid 2 = true ∧ place jumpGraph 0 [.line 9] = [1] := by decide
+
+/-- `for i := 0; i < 2; i++ { s += i }`: node 1 `i := 0`, node 2 `i < 2`, node 3 `i++` (all on line
+    7, in walk order), node 4 the body (line 8), node 5 the exit -/
+def forClauseGraph : Graph := #[
+  { children := [1, 2, 3, 4, 5] },
+  { code := 10, clo := 101, tnext := some 2, line := 7, posValid := true, isNop := false, parent := some 0 },
+  { code := 20, clo := 201, fwd := 299, tnext := some 4, fnext := some 5, line := 7, posValid := true, isNop := false, parent := some 0 },
+  { code := 30, clo := 301, tnext := some 2, line := 7, posValid := true, isNop := false, parent := some 0 },
+  { code := 40, clo := 401, tnext := some 3, line := 8, posValid := true, isNop := false, parent := some 0 },
+  { code := 50, clo := 501, line := 10, posValid := true, parent := some 0 } ]
+
+/-- state: (phase of Execute, i) -/
+def forClauseProg : Prog (Nat × Nat) :=
   ⟨fun st c _ =>
-    if c = baseClo then (if st = 0 then (1, .call 1 (entryClo sepGraph 1)) else (st, .next none))
-    else if c.owner = 1 then (st, .next (some (nodeClo sepGraph 3)))
-    else if c.owner = 2 then (st, .next (some (nodeClo sepGraph 4)))
-    else if c.owner = 3 then (st, .next (some (nodeClo sepGraph 4)))
+    if c = baseClo then (if st.1 = 0 then ((1, st.2), .call 1 (entryClo forClauseGraph 1)) else (st, .next none))
+    else if c.owner = 1 then (st, .next (some (nodeClo forClauseGraph 2)))
+    else if c.owner = 2 then (if st.2 < 2 then (st, .next (some (nodeClo forClauseGraph 4))) else (st, .next (some (nodeClo forClauseGraph 5))))
+    else if c.owner = 4 then (st, .next (some (nodeClo forClauseGraph 3)))
+    else if c.owner = 3 then ((st.1, st.2 + 1), .next (some ⟨2, 99, 299⟩))
     else (st, .next none)⟩
 
-theorem sep_respects : Respects sepGraph sepProg := by
-  intro st c r
-  by_cases hb : c = baseClo
-  · by_cases h0 : st = 0 <;> simp [sepProg, hb, h0]
-  · by_cases h1 : c.owner = 1
-    · simp only [sepProg, hb, h1, ↓reduceIte]
-      exact ⟨3, rfl, by decide, by decide⟩
-    · by_cases h2 : c.owner = 2
-      · simp only [sepProg, hb, h2, ↓reduceIte]
-        exact ⟨4, rfl, by decide, by decide⟩
-      · by_cases h3 : c.owner = 3
-        · simp only [sepProg, hb, h3, ↓reduceIte]
-          exact ⟨4, rfl, by decide, by decide⟩
-        · simp [sepProg, hb, h1, h2, h3]
+/-- **F19-4** (open): a breakpoint on the line of a three-clause `for` is attached to the init
+    statement only: control comes back to line 7 after each iteration (post statement, condition)
+    and nothing is reported -/
+theorem for_clause_witness :
+    let marks := place forClauseGraph 0 [.line 7]
+    let d := drun ⟨expF, forClauseGraph, fun i => marks.contains i, false⟩ forClauseProg 20 (DCfg.init (0, 0) [.cont])
+    marks = [1] ∧ d.ctl = .halt false ∧
+    linesExecuted forClauseGraph d = [7, 7, 8, 7, 7, 8, 7, 7, 10] ∧
+    d.events.reverse.map (fun e => (e.node, e.step)) = [(some 1, 0)] := by decide
 
-/-- the hypotheses of the partial theorem are satisfiable by a branching program with breakpoints
-    in both arms, and there the else arm is reported -/
-theorem dom_nonempty :
-    codeSeparates sepGraph = true ∧ Respects sepGraph sepProg ∧
-    brkNodes (drun ⟨expF, sepGraph, bothArms, false⟩ sepProg 8 (DCfg.init 0 [.cont])).events = [some 3] :=
-  ⟨by decide, sep_respects, by decide⟩
+/-- `switch { case y < 2: x = 1 … }`: node 1 the case clause (line 9: it has an action and a
+    closure, and is not on any path of the control-flow graph), node 2 its condition `y < 2`
+    (line 9), node 3 the body (line 10), node 4 the exit -/
+def taglessCaseGraph : Graph := #[
+  { children := [1, 4] },
+  { code := 30, clo := 101, line := 9, posValid := true, isNop := false, parent := some 0, children := [2, 3] },
+  { code := 10, clo := 201, tnext := some 3, fnext := some 4, line := 9, posValid := true, isNop := false, parent := some 1 },
+  { code := 20, clo := 301, tnext := some 4, line := 10, posValid := true, isNop := false, parent := some 1 },
+  { code := 40, clo := 401, line := 8, posValid := true, parent := some 0 } ]
+
+def taglessCaseProg : Prog Nat :=
+  ⟨fun st c _ =>
+    if c = baseClo then (if st = 0 then (1, .call 2 (entryClo taglessCaseGraph 2)) else (st, .next none))
+    else if c.owner = 2 then (st, .next (some (nodeClo taglessCaseGraph 3)))
+    else if c.owner = 3 then (st, .next (some (nodeClo taglessCaseGraph 4)))
+    else (st, .next none)⟩
+
+/-- **F19-5** (open): a breakpoint on `case cond:` of a switch without tag is accepted and attached
+    to the case clause node, which never executes: the condition on that line is evaluated (and
+    true) and nothing is reported -/
+theorem tagless_case_witness :
+    let marks := place taglessCaseGraph 0 [.line 9]
+    let d := drun ⟨expF, taglessCaseGraph, fun i => marks.contains i, false⟩ taglessCaseProg 10 (DCfg.init 0 [.cont])
+    marks = [1] ∧ d.ctl = .halt false ∧ linesExecuted taglessCaseGraph d = [9, 10, 8] ∧ d.events = [] := by decide
+
+/-- `x := bad(2)` where `bad` panics: node 1 the define statement (line 12), node 2 the call (line
+    12; operands execute first), node 3 the body of `bad` (line 7) -/
+def panicLineGraph : Graph := #[
+  { children := [1, 3] },
+  { code := 10, clo := 101, line := 12, posValid := true, isNop := false, parent := some 0, children := [2] },
+  { code := 20, clo := 201, tnext := some 1, line := 12, posValid := true, isNop := false, parent := some 1 },
+  { code := 40, clo := 301, line := 7, posValid := true, isNop := false, parent := some 0 } ]
+
+def panicLineProg : Prog Nat :=
+  ⟨fun st c resumed =>
+    if c = baseClo then (if st = 0 then (1, .call 2 (entryClo panicLineGraph 2)) else (st, .next none))
+    else if c.owner = 2 then (if resumed then (st, .next (some (nodeClo panicLineGraph 1))) else (st, .call 3 (entryClo panicLineGraph 3)))
+    else if c.owner = 3 then (st, .panic)
+    else (st, .next none)⟩
+
+/-- **F19-6** (open): the node marked for a line is its outermost node, which executes after its
+    operands — calls included. When an operand panics the line has been reached, the callee has
+    run, and the breakpoint was never reported -/
+theorem panic_line_witness :
+    let marks := place panicLineGraph 0 [.line 12]
+    let d := drun ⟨expF, panicLineGraph, fun i => marks.contains i, false⟩ panicLineProg 10 (DCfg.init 0 [.cont])
+    marks = [1] ∧ d.ctl = .halt true ∧ linesExecuted panicLineGraph d = [12, 7] ∧ d.events = [] := by decide
 
 /-! ### breakpoint placement -/
 
